@@ -167,6 +167,11 @@ func familyExt(family, id string, g *Gen, blocks, maxTx int) *Scenario {
 		return g.Mixed(id, blocks, maxTx, OnsKinds)
 	case "olvm":
 		return g.OlvmStory(id, blocks)
+	case "olvmfork":
+		if blocks < 18 {
+			blocks = 18
+		}
+		return g.OlvmStory(id, blocks)
 	case "bid":
 		if blocks < 16 {
 			blocks = 16
@@ -248,7 +253,7 @@ func familyKindsExt(family string) []string {
 		return StakeKinds
 	case "alleg", "allegset":
 		return AllegKinds
-	case "eth", "eth5", "erc20":
+	case "eth", "eth5", "erc20", "ethstory":
 		return EthKinds
 	case "stake":
 		return StakeKinds
@@ -258,7 +263,7 @@ func familyKindsExt(family string) []string {
 		return OnsKinds
 	case "rewards":
 		return RewardKinds
-	case "olvm":
+	case "olvm", "olvmfork":
 		return []string{"OLVM", "SEND"}
 	case "bid", "bidmix":
 		return BidKinds
